@@ -16,7 +16,7 @@ import z3
 from contracts.common import *  # noqa
 from contracts import common, insn, c06, c05, c13, c15, c14, deferred_c, compiler_c, symbols_c, meta_c, cli_c
 from contracts.insn import *  # noqa
-from contracts.c06 import unit_fill, unit_data, unit_ascii, unit_word_list, unit_get_as_int  # noqa
+from contracts.c06 import unit_fill, unit_data, unit_ascii, unit_word_list, unit_get_as_int, unit_get_cyclic  # noqa
 from contracts.c05 import unit_infix_body, unit_prefix_body, unit_number, unit_pseudo_resolve  # noqa
 from contracts.c13 import unit_bin  # noqa
 from contracts.c14 import unit_encode, unit_charliteral  # noqa
@@ -342,6 +342,8 @@ def unit_mutation(eng, shard, tier="quick"):
 
 def units(tier):
     us = [("mutation[%d]" % k, "unit_mutation", dict(shard=k, tier=tier)) for k in range(MUT_SHARDS)]
+    for which, flag in (("get_as_int", None), ("get_as_int", False), ("get_as_str", None)):
+        us.append(("%s[cyclic,%s]" % (which, flag), "unit_get_cyclic", dict(which=which, flag=flag)))
     us += [("random-programs", "unit_random_programs", dict(tier=tier)), ("self-reference", "unit_self_reference", {}), ("open_device", "unit_open_device", {}), ("align", "unit_align_total", {}), ("bin", "unit_bin", {}),
           ("awaiting", "unit_awaiting", {}), ("wait", "unit_wait", {}), ("wait-chain", "unit_wait_chain", {}), ("promise", "unit_promise", {}), ("number", "unit_number", {}), ("encode", "unit_encode", {}),
           ("charliteral", "unit_charliteral", {}), ("include", "unit_include", {}), ("insert_file", "unit_insert_file", {}), ("repeat", "unit_repeat", {}),
